@@ -667,6 +667,8 @@ pub fn check(tier: &str, seed: i64) -> i32 {
     let mut code = 0;
     let mut nviol = 0;
     let mut known_lines = Vec::new();
+    // printed only when the whole judgement went through without a machinery error
+    let mut violation_lines: Vec<String> = Vec::new();
     let out_dir = verif_dir().join("out").join("replays");
     std::fs::create_dir_all(&out_dir).ok();
     for (kind, (cnt, inst, msg)) in groups.iter() {
@@ -690,12 +692,18 @@ pub fn check(tier: &str, seed: i64) -> i32 {
             }
         }
         if reproduced < 2 {
+            if kind.starts_with("blowup/") {
+                // a time limit that is not hit again when the instance runs alone is load, not growth:
+                // reported as a cap, never as a verdict
+                timeouts.push(format!("{} (finished when re-run alone: not counted as a blow-up)", inst.join(" ")));
+                continue;
+            }
             eprintln!("MACHINERY ERROR: C19 instance {:?} not reproducible ({}): {}", inst, reproduced, msg);
             return 2;
         }
         let path = out_dir.join(format!("C19_{}.json", nviol));
         std::fs::write(&path, serde_json::to_string_pretty(&serde_json::json!({"big_instance": inst, "kind": kind, "message": msg})).unwrap()).ok();
-        println!("VIOLATION property=C19 replay={}", path.display());
+        violation_lines.push(format!("VIOLATION property=C19 replay={}", path.display()));
         eprintln!("   {} instances: {} (smallest {})", cnt, msg, inst.join(" "));
         nviol += 1;
         code = 1;
@@ -732,6 +740,9 @@ pub fn check(tier: &str, seed: i64) -> i32 {
         distinct_nontrivial: outcomes.iter().filter(|o| !o.contains(" 10 -> ")).count() as u64,
         extra: serde_json::json!({"instances": insts.len(), "timeouts": timeouts.len()}),
     });
+    for l in violation_lines.iter() {
+        println!("{}", l);
+    }
     eprintln!("[C19] {} instances, {} events, {} violation kinds, {} timeouts, {:.1}s", insts.len(), evs, groups.len(), timeouts.len(), t0.elapsed().as_secs_f64());
     code
 }
